@@ -102,7 +102,9 @@ Invs == [
   I40 |-> <<Id("O"), Num("1")>>,
   \* an object-like alias of a function-like macro as an argument; the "(" follows the OUTER invocation
   I41 |-> Call1("G", <<Id("O")>>) \o <<LP, Num("1"), RP>>,
-  I42 |-> Call1("F", <<Id("O")>>) \o <<LP, Num("1"), RP>> ]
+  I42 |-> Call1("F", <<Id("O")>>) \o <<LP, Num("1"), RP>>,
+  \* a function-like macro name passed as argument ends the replacement list; its "(" follows the invocation
+  I43 |-> Call1("F", <<Id("G")>>) \o <<LP, Num("1"), RP>> ]
 
 Sel == CASE Profile = "q" -> [f |-> DOMAIN FDefs, g |-> {"G0", "G1", "G2", "G4", "G6"}, o |-> {"O0", "O1", "O4", "O3", "O6", "O7"}, i |-> DOMAIN Invs]
          [] Profile = "t" -> [f |-> DOMAIN FDefs, g |-> DOMAIN GDefs, o |-> DOMAIN ODefs, i |-> DOMAIN Invs]
